@@ -106,7 +106,11 @@ where
             | .ref e' n' => .ref e' n'
             | _ => .ref o name
           modifyFrame orig fun f => { f with store := setStore f.store name r }
-          if !isConstant name && !isFuncObj obj then
+          -- only a constant of the top level scope is the same for every call
+          let refDepth ← match r with
+            | .ref e' _ => do pure (← getFrame e').depth
+            | _ => pure 0
+          if !(isConstant name && refDepth == 0) && !isFuncObj obj then
             modifyFrame orig fun f => { f with getMiss := f.getMiss + 1 }
           pure (some r)
 
@@ -131,7 +135,8 @@ def envGet (e : Nat) (name : String) : M (Option Obj) := do
       | some _ => makeRef e name
     else
       let tgt ← refValue re rn
-      if !isConstant rn && !isFuncObj tgt then
+      let refDepth := (← getFrame re).depth
+      if !(isConstant rn && refDepth == 0) && !isFuncObj tgt then
         modifyFrame e fun f => { f with getMiss := f.getMiss + 1 }
       pure (some (.ref re rn))
   | some obj => pure (some obj)
